@@ -243,6 +243,74 @@ class Session:
             except Exception:
                 pass
             self.check_registry("cross_ref")
+        elif k == "cross_base":
+            # a space of another model offered as a base: refused, or really that object - never a namesake found by path
+            tgt = self.by_tag(op["to"])
+            if tgt is None or tgt is mach:
+                return
+            sps = list(tgt.ref.all_spaces())
+            mine = list(mach.ref.all_spaces())
+            if not sps or (op["how"] == "add_bases" and not mine):
+                return
+            t = sps[op["i"] % len(sps)]
+            before = self.snapshot()
+            try:
+                tlive = tgt.world.space(t.path())
+                if op["how"] == "new_space":
+                    made = mach.world.m.new_space("ZX", bases=tlive)
+                    bases = list(made.bases)
+                else:
+                    sub = mach.world.space(mine[op["j"] % len(mine)].path())
+                    sub.add_bases(tlive)
+                    bases = list(sub.bases)
+                outcome = "ok"
+            except Exception as e:
+                outcome = type(e).__name__
+            self.events.append("cross_base %s -> %s" % (op["how"], outcome))
+            self.ctx.count("cross_model_bases_offered", 1, "reach")
+            if outcome == "ok":
+                if not any(b is tlive for b in bases):
+                    raise Violation("C19/base-of-another-model-replaced-by-a-namesake/" + op["how"],
+                                    {"asked": tlive.fullname, "bases": [b.fullname for b in bases]})
+                return
+            self.compare(before, "cross_base-rejected", None)
+            self.check_registry("cross_base")
+        elif k == "cross_ref_item":
+            # a reference to a space of another model, read inside an ItemSpace: it keeps denoting that object
+            tgt = self.by_tag(op["to"])
+            if tgt is None or tgt is mach:
+                return
+            mine = [x for x in mach.ref.all_spaces() if x.formula is not None and not (x.formula.get("ret") and "base" in x.formula["ret"])]
+            sps = list(tgt.ref.all_spaces())
+            if not mine or not sps:
+                return
+            p = mine[op["j"] % len(mine)]
+            # prefer a target with the same dotted path as something below p (what a path comparison would confuse)
+            same = [x for x in sps if x.path() == p.path() or x.path().startswith(p.path() + ".")]
+            t = (same or sps)[op["i"] % len(same or sps)]
+            try:
+                plive = mach.world.space(p.path())
+                tlive = tgt.world.space(t.path())
+                if "xr" in plive.refs:
+                    return
+                plive.set_ref("xr", tlive, refmode=op["mode"])
+            except Exception as e:
+                self.events.append("cross_ref_item rejected %s" % type(e).__name__)
+                return
+            try:
+                args = [0 for p_, d in p.formula["params"] if d is None]
+                try:
+                    got = plive(*args).xr
+                except Exception as e:
+                    raise Violation("C19/cross-model-reference-unreadable-in-itemspace/%s" % type(e).__name__, {"space": p.path(), "target": tlive.fullname})
+                self.ctx.count("cross_model_refs_read_in_itemspaces", 1, "reach")
+                if got is not tlive:
+                    raise Violation("C19/cross-model-reference-rebound-in-itemspace", {"space": p.path(), "target": tlive.fullname, "got": getattr(got, "fullname", repr(got))})
+            finally:
+                try:
+                    del plive.xr
+                except Exception:
+                    pass
         self.ctx.nsteps += 1
 
     def by_tag(self, tag):
@@ -260,7 +328,7 @@ class Session:
             return {"op": "new_model", "name": name, "build": rng.random() < 0.7}
         mach = rng.choice(self.machs)
         if r < self.cfg["p_registry"]:
-            k = rng.choice(["rename", "rename", "close", "write", "read_model", "new_model", "cross_ref", "stale"])
+            k = rng.choice(["rename", "rename", "close", "write", "read_model", "new_model", "cross_ref", "cross_ref", "cross_ref", "stale"])
             if k == "stale":
                 if not self.closed:
                     return None
@@ -283,6 +351,13 @@ class Session:
                 return {"op": "new_model", "name": rng.choice(NAMES + [None]), "build": rng.random() < 0.5}
             if k == "cross_ref" and self.cfg.get("cross_refs") and len(self.machs) > 1:
                 other = rng.choice([m for m in self.machs if m is not mach])
+                q = rng.random()
+                if q < 0.3:
+                    return {"op": "cross_base", "m": mach.tag, "to": other.tag, "i": rng.randrange(100), "j": rng.randrange(100),
+                            "how": rng.choice(["new_space", "add_bases"])}
+                if q < 0.6:
+                    return {"op": "cross_ref_item", "m": mach.tag, "to": other.tag, "i": rng.randrange(100), "j": rng.randrange(100),
+                            "mode": rng.choice(["auto", "absolute"])}
                 return {"op": "cross_ref", "m": mach.tag, "to": other.tag, "i": rng.randrange(100)}
             return None
         inner = mach.next_op(WEIGHTS_IN)
